@@ -2,6 +2,7 @@ package main
 
 import (
 	"errors"
+	"fmt"
 	"io"
 	"os"
 	"syscall"
@@ -38,12 +39,19 @@ func readErr(kind string) error {
 		return os.ErrDeadlineExceeded
 	case "eintr":
 		return syscall.EINTR
+	case "wrappedEOF":
+		// not io.EOF: "Read must return EOF itself, not an error wrapping EOF, because callers
+		// will test for EOF using ==" (io.Reader).  A source that reports an upstream truncation
+		// this way has failed, and a sanitizer that treats it as a clean end silently truncates.
+		return errWrappedEOF
 	default:
 		return errSentinel
 	}
 }
 
-var readErrKinds = []string{"sentinel", "unexpectedEOF", "closedPipe", "deadline", "eintr"}
+var errWrappedEOF = fmt.Errorf("verifsim: upstream connection reset before the document ended: %w", io.EOF)
+
+var readErrKinds = []string{"sentinel", "unexpectedEOF", "closedPipe", "deadline", "eintr", "wrappedEOF"}
 
 // SimReader implements io.Reader over private data following a ReadPlan.
 // Only legal reader behaviour is produced: never n>len(p), never more than 3
@@ -253,6 +261,14 @@ func genChunks(r *RNG, n int) ReadPlan {
 	case 3: // two chunks
 		if n > 0 {
 			rp.Chunks = []int{r.Range(1, n)}
+		}
+	case 4: // an empty read before every small chunk, for the whole input: many empty reads in total, never 4 in a row
+		k := r.Range(1, 3)
+		for got := 0; got < n && len(rp.Chunks) < 16000; got += k {
+			for z, nz := 0, r.Range(1, 3); z < nz; z++ {
+				rp.Chunks = append(rp.Chunks, 0)
+			}
+			rp.Chunks = append(rp.Chunks, k)
 		}
 	default: // random sizes with empty reads sprinkled
 		max := r.Pick([]string{"3", "8", "40", "700", "5000"})
